@@ -266,6 +266,10 @@ def main(argv=None):
         r = subprocess.run([PY, "-m", "symx.replay", a.replay, "--verbose"], cwd=ROOT)
         return r.returncode
     prop = a.prop.upper()
+    import warnings
+    # NumPy's "mean of empty slice" etc. on enumerated empty shapes: noise on stderr, never part of a verdict
+    # (harnesses that test for warnings install their own filter inside warnings.catch_warnings)
+    warnings.filterwarnings("ignore", category=RuntimeWarning)
     seed = int(os.environ.get("VERIF_SEED", "0"))
     t0 = time.time()
     H = load_harness(prop)
